@@ -946,7 +946,9 @@ class _Parser(object):
             if isinstance(parsed, bool):
                 return str(parsed).lower()
             if isinstance(parsed, datetime.datetime):
-                return parsed.isoformat()[:-3] + 'Z'
+                # UTC, to the millisecond, whatever the form of the value: aware, whole second.
+                return helpers.patch_datetime_awareness_in_document(parsed).isoformat(
+                    timespec='milliseconds') + 'Z'
             return str(parsed)
 
         if operator == '$toInt':
